@@ -79,6 +79,8 @@ Ltac prep_b :=
   | H : state_is _ _ _ = true |- _ => apply state_is_true in H; destruct H
   | H : state_is _ _ _ = false |- _ => apply state_is_false in H
   | H : Bool.eqb _ _ = true |- _ => apply Bool.eqb_prop in H
+  | H : true = state_is _ _ _ |- _ => symmetry in H
+  | H : false = state_is _ _ _ |- _ => symmetry in H
   | H : andb _ _ = true |- _ => apply andb_prop in H; destruct H
   | H : andb _ _ = false |- _ => apply andb_false_iff in H
   | H : negb _ = true |- _ => apply negb_true_iff in H
@@ -124,22 +126,253 @@ Ltac open_inv I :=
                  Ioccr Ioccq Ifirst Irunr];
   unfold RT, NF, WT, cnt in *.
 
-(* pointwise view after one coroutine moved *)
-Lemma pcw_set_co : forall f s c v x n,
-  get s c = Some x -> pcw f (set_co c v s) n = if Nat.eq_dec n c then f (pc v) else pcw f s n.
+(* ---- the phases as a disjunction of plain facts (for use as hypotheses) ----------------------------------- *)
+Definition phA (s : st) : Prop :=
+  sw s = 0 /\ cnt store_w s = 0 /\ cnt own_w s = 0 /\ cnt runw_w s = 0 /\ cnt usrun_w s = 0 /\ cnt add_w s = 0 /\
+  cnt parkf_w s = 0 /\ rsize s = 0 /\ length (wq s) = 0 /\ rpass s = cnt nt_w s /\ cnt d_w s = 0 /\ rwait s = 0%Z.
+Definition phB (s : st) : Prop :=
+  cnt own_w s + cnt runw_w s + cnt usrun_w s = 1 /\ cnt store_w s = 0 /\ cnt rtown_w s = 0 /\ cnt infl_w s = 0 /\
+  rpass s = 0 /\ cnt d_w s = 0 /\ rwait s = 0%Z /\ cnt add_w s = 0 /\ cnt parkf_w s = cnt usrun_w s.
+Definition phS (s : st) : Prop :=
+  cnt store_w s = 1 /\ cnt own_w s = 0 /\ cnt runw_w s = 0 /\ cnt usrun_w s = 0 /\ cnt rtown_w s = 0 /\
+  cnt infl_w s = 0 /\ rpass s = 0 /\ cnt d_w s = 0 /\ rwait s = 0%Z /\ cnt add_w s = 0 /\ cnt parkf_w s = 0 /\
+  cnt storew_w s = sw s + 1 /\ sw s >= 1 /\ length (wq s) = sw s /\ rsize s >= 1 /\ (fifo s = true -> wprio s = 0).
+Definition phC0 (s : st) : Prop :=
+  cnt own_w s = 0 /\ cnt runw_w s = 0 /\ cnt usrun_w s = 0 /\ cnt store_w s = 0 /\ sw s <> 0 /\ cnt add_w s = 0 /\
+  cnt parkf_w s = 1 /\ rpass s <= cnt nt_w s /\ cnt addr_w s = 0 /\
+  (rwait s = Z.of_nat (cnt rtown_w s + cnt infl_w s + rpass s + cnt d_w s))%Z /\ (rwait s >= 1)%Z.
+Definition phC1 (s : st) : Prop :=
+  cnt own_w s = 0 /\ cnt runw_w s = 0 /\ cnt usrun_w s = 0 /\ cnt store_w s = 0 /\ sw s <> 0 /\ cnt add_w s = 1 /\
+  cnt parkf_w s = 0 /\ rpass s <= cnt nt_w s /\
+  (rwait s + Z.of_nat (cnt addr_w s) = Z.of_nat (cnt rtown_w s + cnt infl_w s + rpass s + cnt d_w s))%Z /\
+  (rwait s <= 0)%Z.
+
+Lemma inv_phase : forall s, inv s -> phA s \/ phB s \/ phS s \/ phC0 s \/ phC1 s.
 Proof.
-  unfold pcw, get, set_co. intros. cbn [cos]. rewrite (nth_error_set_nth _ _ _ n v x H).
-  destruct (Nat.eq_dec n c); auto.
+  intros s I. destruct I. unfold RT, NF, WT in *.
+  pose proof (add_addr (cos s)) as Za. fold (cnt add_w s) in Za. fold (cnt addr_w s) in Za.
+  destruct (Nat.eq_dec (cnt store_w s) 1) as [St|St].
+  - right; right; left. specialize (i_pst0 St). assert (W : cnt own_w s + cnt runw_w s + cnt usrun_w s + cnt store_w s = 1) by lia.
+    specialize (i_pb0 W). unfold phS. repeat split; try lia. tauto.
+  - assert (St0 : cnt store_w s = 0) by lia. clear i_pst0.
+    destruct (Nat.eq_dec (cnt own_w s + cnt runw_w s + cnt usrun_w s) 1) as [W|W].
+    + right; left. assert (W1 : cnt own_w s + cnt runw_w s + cnt usrun_w s + cnt store_w s = 1) by lia.
+      specialize (i_pb0 W1). unfold phB. repeat split; lia.
+    + assert (W0 : cnt own_w s + cnt runw_w s + cnt usrun_w s + cnt store_w s = 0) by lia.
+      destruct (Nat.eq_dec (sw s) 0) as [Z|Z].
+      * left. specialize (i_pa0 Z St0). unfold phA. repeat split; lia.
+      * specialize (i_pc0 W0 Z). destruct i_pc0 as (P1 & P2 & P3 & P4 & P5).
+        destruct (Nat.eq_dec (cnt add_w s) 0) as [A|A].
+        -- right; right; right; left. specialize (P4 A). specialize (Za A). unfold phC0. repeat split; lia.
+        -- right; right; right; right. assert (A1 : cnt add_w s = 1) by lia. specialize (P5 A1).
+           unfold phC1. repeat split; lia.
 Qed.
-Lemma pcP_set_co : forall P s c v x n,
-  get s c = Some x -> pcP P (set_co c v s) n = if Nat.eq_dec n c then P (pc v) else pcP P s n.
+
+Ltac split_ifs :=
+  repeat match goal with
+  | |- context [if ?b then _ else _] => let E := fresh "E" in destruct b eqn:E
+  end.
+
+Ltac open_phase s I :=
+  let Ph := fresh "Ph" in
+  pose proof (inv_phase s I) as Ph;
+  destruct Ph as [Ph|[Ph|[Ph|[Ph|Ph]]]];
+  [unfold phA in Ph | unfold phB in Ph | unfold phS in Ph | unfold phC0 in Ph | unfold phC1 in Ph];
+  decompose [and] Ph; clear Ph.
+
+Ltac open_inv' I :=
+  destruct I as [Irsize Isr Iparkq Iparkr Isw Iwt Inf Ispin1 Ispin0 Iprio_le Iprio_f Iprio_n Ipa Ipb Ipst Ipc
+                 Ioccr Ioccq Ifirst Irunr];
+  clear Ipa Ipb Ipst Ipc Iwt Inf;
+  unfold RT, NF, WT, cnt, pcw, pcP in *.
+
+(* lower bounds: the coroutine that moves is counted *)
+Ltac gfacts l c x G :=
+  pose proof (cntl_ge rtown_w l c x G);
+  pose proof (cntl_ge infl_w l c x G);
+  pose proof (cntl_ge nt_w l c x G);
+  pose proof (cntl_ge d_w l c x G);
+  pose proof (cntl_ge parkr_w l c x G);
+  pose proof (cntl_ge own_w l c x G);
+  pose proof (cntl_ge runw_w l c x G);
+  pose proof (cntl_ge usrun_w l c x G);
+  pose proof (cntl_ge store_w l c x G);
+  pose proof (cntl_ge add_w l c x G);
+  pose proof (cntl_ge parkf_w l c x G);
+  pose proof (cntl_ge parkq_w l c x G);
+  pose proof (cntl_ge addr_w l c x G);
+  pose proof (cntl_ge storew_w l c x G).
+
+Ltac clean_bool_imps :=
+  repeat match goal with
+  | H : true = true -> _ |- _ => specialize (H eq_refl)
+  | H : false = false -> _ |- _ => specialize (H eq_refl)
+  | H : false = true -> _ |- _ => clear H
+  | H : true = false -> _ |- _ => clear H
+  end.
+
+(* the two option flags and the spin flag: case split, so that nothing propositional is left for lia *)
+Ltac split_flags s :=
+  destruct (spin s) eqn:Sp; destruct (fifo s) eqn:Fi; clean_bool_imps.
+
+Ltac arith_facts :=
+  match goal with
+  | G : nth_error (cos ?s) ?c = Some ?x, P : pc ?x = _ |- inv (set_co ?c ?v _) =>
+      cfacts (cos s) c x v G; gfacts (cos s) c x G; zfacts (cos s); zfacts (set_nth c v (cos s));
+      rewrite P in *; simp_w
+  end.
+
+Ltac use_flags :=
+  repeat match goal with
+  | H : ?a = ?b, I : ?a = ?b -> _ |- _ => specialize (I H)
+  end.
+
+Ltac flag_clash :=
+  match goal with
+  | H : ?a = true, H' : ?a = false |- _ => rewrite H in H'; discriminate H'
+  | H : true = false |- _ => discriminate H
+  | H : false = true |- _ => discriminate H
+  end.
+
+Ltac fin_arith :=
+  intros; clean_bool_imps; use_flags; try flag_clash;
+  first [lia | repeat match goal with |- _ /\ _ => split end; intros; use_flags; lia | idtac].
+
+(* pointwise goals when the moving coroutine is in none of the lists before or after *)
+Ltac pt_occr :=
+  match goal with
+  | G : nth_error (cos ?s) ?c = Some ?x, P : pc ?x = _, Ioccr : forall n, _ + cntl (inflocc_w n) (cos ?s) = pcwl parkr_w (cos ?s) n
+    |- forall n, _ + cntl (inflocc_w n) (set_nth ?c ?v _) = pcwl parkr_w _ n =>
+      let n := fresh "n" in let Hc := fresh "Hc" in let Ho := fresh "Ho" in
+      intros n; rewrite (pcwl_set_nth parkr_w (cos s) c v x n G);
+      pose proof (cntl_set_nth (inflocc_w n) (cos s) c x v G) as Hc; rewrite P in Hc;
+      pose proof (Ioccr n) as Ho;
+      destruct (Nat.eq_dec n c) as [->|?];
+      [rewrite (pcwl_at parkr_w (cos s) c x G) in Ho; rewrite P in Ho|];
+      cbn [inflocc_w parkr_w pc upd_pc inc_req inc_got] in *; try lia
+  end.
+Ltac pt_occq :=
+  match goal with
+  | G : nth_error (cos ?s) ?c = Some ?x, P : pc ?x = _, Ioccq : forall n, _ + cntl (runwocc_w n) (cos ?s) = pcwl parkq_w (cos ?s) n
+    |- forall n, _ + cntl (runwocc_w n) (set_nth ?c ?v _) = pcwl parkq_w _ n =>
+      let n := fresh "n" in let Hc := fresh "Hc" in let Ho := fresh "Ho" in
+      intros n; rewrite (pcwl_set_nth parkq_w (cos s) c v x n G);
+      pose proof (cntl_set_nth (runwocc_w n) (cos s) c x v G) as Hc; rewrite P in Hc;
+      pose proof (Ioccq n) as Ho;
+      destruct (Nat.eq_dec n c) as [->|?];
+      [rewrite (pcwl_at parkq_w (cos s) c x G) in Ho; rewrite P in Ho|];
+      cbn [runwocc_w parkq_w pc upd_pc inc_req inc_got] in *; try lia
+  end.
+Ltac pt_first :=
+  match goal with
+  | G : nth_error (cos ?s) ?c = Some ?x, P : pc ?x = _, Ifirst : forall n, pcwl nf_w (cos ?s) n = 1 -> wfirst ?s = Some n
+    |- forall n, pcwl nf_w (set_nth ?c ?v _) n = 1 -> _ =>
+      let n := fresh "n" in let Hn := fresh "Hn" in
+      intros n Hn; rewrite (pcwl_set_nth nf_w (cos s) c v x n G) in Hn;
+      destruct (Nat.eq_dec n c) as [->|?];
+      [cbn [nf_w add_w parkf_w pc upd_pc inc_req inc_got] in Hn; try discriminate Hn; try reflexivity;
+       try (apply Ifirst; rewrite (pcwl_at nf_w (cos s) c x G); rewrite P; reflexivity)
+      | try (apply Ifirst; exact Hn)]
+  end.
+Ltac pt_runr :=
+  match goal with
+  | G : nth_error (cos ?s) ?c = Some ?x, Irunr : forall n, pcPl runr_ok (cos ?s) n
+    |- forall n, pcPl runr_ok (set_nth ?c ?v _) n =>
+      let n := fresh "n" in
+      intros n; rewrite (pcPl_set_nth runr_ok (cos s) c v x n G);
+      destruct (Nat.eq_dec n c) as [->|?]; [cbn [runr_ok pc upd_pc inc_req inc_got]; try exact I | apply Irunr]
+  end.
+
+Ltac fin_all := first [pt_occr | pt_occq | pt_first | pt_runr | fin_arith].
+
+(* the whole proof for an event that moves one coroutine among pcs outside every list *)
+Ltac simple_event s I :=
+  arith_facts; open_phase s I; open_inv' I; use_flags; try lia;
+  constructor; unfold RT, NF, WT, cnt, pcw, pcP;
+  cbn [fifo rfifo sw sr rwait rpass rsize wprio rq wfirst wq spin cos
+       set_co set_mx set_sr set_sw set_rwait add_try add_entered wfail
+       m_sw m_sr m_rwait m_rpass m_rsize m_wprio m_rq m_wfirst m_wq m_spin];
+  fin_all.
+
+(* the ghost logs are not mentioned by the invariant *)
+Lemma inv_add_try : forall s c w b, inv s -> inv (add_try c w b s).
+Proof. intros s c w b I. destruct I. constructor; assumption. Qed.
+Lemma inv_add_entered : forall s c w r, inv s -> inv (add_entered c w r s).
+Proof. intros s c w r I. destruct I. constructor; assumption. Qed.
+
+Ltac start_event H :=
+  unfold step, get, wfail in H; case_hyp H; injection H as <-; prep_b; subst;
+  repeat match goal with
+  | |- context [match ?k with TTry => _ | TLock => _ end] => destruct k
+  | |- context [if ?b then _ else _] => let E := fresh "E" in destruct b eqn:E
+  end; prep_b;
+  try apply inv_add_try; try apply inv_add_entered.
+
+(* ---- neutral moves: the coroutine changes pc between two pcs of equal weight, the mutex is untouched ------- *)
+Definition weq (p q : pcs) : Prop :=
+  rtown_w p = rtown_w q /\ infl_w p = infl_w q /\ nt_w p = nt_w q /\ d_w p = d_w q /\ parkr_w p = parkr_w q /\
+  own_w p = own_w q /\ runw_w p = runw_w q /\ usrun_w p = usrun_w q /\ store_w p = store_w q /\
+  add_w p = add_w q /\ parkf_w p = parkf_w q /\ parkq_w p = parkq_w q /\ addr_w p = addr_w q /\
+  storew_w p = storew_w q /\
+  (forall n, inflocc_w n p = inflocc_w n q) /\ (forall n, runwocc_w n p = runwocc_w n q) /\
+  (runr_ok p -> runr_ok q).
+
+Lemma cntl_weq : forall f l c x v,
+  nth_error l c = Some x -> f (pc x) = f (pc v) -> cntl f (set_nth c v l) = cntl f l.
+Proof. intros. pose proof (cntl_set_nth f l c x v H). lia. Qed.
+
+Lemma pcwl_weq : forall f l c x v n,
+  nth_error l c = Some x -> f (pc x) = f (pc v) -> pcwl f (set_nth c v l) n = pcwl f l n.
 Proof.
-  unfold pcP, get, set_co. intros. cbn [cos]. rewrite (nth_error_set_nth _ _ _ n v x H).
-  destruct (Nat.eq_dec n c); auto.
+  intros. rewrite (pcwl_set_nth f l c v x n H). destruct (Nat.eq_dec n c); auto.
+  subst. rewrite (pcwl_at f l c x H). auto.
 Qed.
-Lemma pcw_set_mx : forall f s m n, pcw f (set_mx m s) n = pcw f s n.
-Proof. reflexivity. Qed.
-Lemma pcP_set_mx : forall P s m n, pcP P (set_mx m s) n = pcP P s n.
-Proof. reflexivity. Qed.
-Lemma get_set_mx : forall s m n, get (set_mx m s) n = get s n.
-Proof. reflexivity. Qed.
+
+Lemma inv_neutral : forall s c x v, inv s -> get s c = Some x -> weq (pc x) (pc v) -> inv (set_co c v s).
+Proof.
+  intros s c x v I G W. unfold get in G.
+  destruct W as (W1 & W2 & W3 & W4 & W5 & W6 & W7 & W8 & W9 & W10 & W11 & W12 & W13 & W14 & W15 & W16 & W17).
+  destruct I. unfold RT, NF, WT, cnt, pcw, pcP in *.
+  constructor; unfold RT, NF, WT, cnt, pcw, pcP; cbn [fifo rfifo sw sr rwait rpass rsize wprio rq wfirst wq spin cos set_co];
+    rewrite ?(cntl_weq rtown_w _ c x v G W1), ?(cntl_weq infl_w _ c x v G W2), ?(cntl_weq nt_w _ c x v G W3),
+      ?(cntl_weq d_w _ c x v G W4), ?(cntl_weq parkr_w _ c x v G W5), ?(cntl_weq own_w _ c x v G W6),
+      ?(cntl_weq runw_w _ c x v G W7), ?(cntl_weq usrun_w _ c x v G W8), ?(cntl_weq store_w _ c x v G W9),
+      ?(cntl_weq add_w _ c x v G W10), ?(cntl_weq parkf_w _ c x v G W11), ?(cntl_weq parkq_w _ c x v G W12),
+      ?(cntl_weq addr_w _ c x v G W13), ?(cntl_weq storew_w _ c x v G W14); try assumption.
+  - intros n. rewrite (cntl_weq (inflocc_w n) _ c x v G (W15 n)). rewrite (pcwl_weq parkr_w _ c x v n G W5). auto.
+  - intros n. rewrite (cntl_weq (runwocc_w n) _ c x v G (W16 n)). rewrite (pcwl_weq parkq_w _ c x v n G W12). auto.
+  - intros n. rewrite (pcwl_weq nf_w _ c x v n G). auto. unfold nf_w. lia.
+  - intros n. rewrite (pcPl_set_nth runr_ok _ c v x n G). destruct (Nat.eq_dec n c); auto. subst.
+    apply W17. specialize (i_runr0 c). unfold pcPl in i_runr0. rewrite G in i_runr0. auto.
+Qed.
+
+Ltac weq_solve := unfold weq; repeat split; intros; try reflexivity; try exact I; auto.
+
+Ltac neutral_event I :=
+  match goal with
+  | G : nth_error (cos ?s) ?c = Some ?x, P : pc ?x = _ |- inv (set_co ?c ?v ?s) =>
+      apply (inv_neutral s c x v I G); rewrite P; cbn [pc upd_pc inc_req inc_got]; weq_solve
+  end.
+
+(* ---- list facts ----------------------------------------------------------------------------------------- *)
+Lemma rq_push_length : forall s c, length (rq_push s c) = S (length (rq s)).
+Proof. unfold rq_push. intros. destruct (rfifo s); simpl; auto. rewrite app_length. simpl. lia. Qed.
+Lemma rq_push_occ : forall s c n,
+  count_occ Nat.eq_dec (rq_push s c) n = count_occ Nat.eq_dec (rq s) n + (if Nat.eq_dec c n then 1 else 0).
+Proof. unfold rq_push. intros. destruct (rfifo s); [apply count_occ_app1 | apply count_occ_cons1]. Qed.
+Lemma cntl_nf : forall l, cntl nf_w l = cntl add_w l + cntl parkf_w l.
+Proof. unfold cntl. induction l; simpl; auto. unfold nf_w at 1. lia. Qed.
+
+Ltac occ_simpl :=
+  rewrite ?rq_push_occ, ?count_occ_app1, ?count_occ_cons1 in *;
+  cbn [count_occ inflocc_w runwocc_w parkr_w parkq_w nf_w add_w parkf_w pc upd_pc inc_req inc_got] in *;
+  repeat match goal with
+   | |- context [Nat.eq_dec ?a ?b] => destruct (Nat.eq_dec a b); try congruence
+   | H : context [Nat.eq_dec ?a ?b] |- _ => destruct (Nat.eq_dec a b); try congruence
+  end; try lia.
+
+Ltac open_goal :=
+  constructor; unfold RT, NF, WT, cnt, pcw, pcP;
+  cbn [fifo rfifo sw sr rwait rpass rsize wprio rq wfirst wq spin cos
+       set_co set_mx set_sr set_sw set_rwait add_try add_entered wfail
+       m_sw m_sr m_rwait m_rpass m_rsize m_wprio m_rq m_wfirst m_wq m_spin].
